@@ -2399,7 +2399,7 @@ class Interp:
             self.patterns[p.key] = p
         return out
 
-    def regex_call(self, how: str, pats: list[Pattern], subject: AV, fr: Frame, e: ast.AST, span: list[AV] | None = None) -> AV:
+    def regex_call(self, how: str, pats: list[Pattern], subject: AV, fr: Frame, e: ast.AST, span: list[AV] | None = None, repl: AV | None = None) -> AV:
         outs = []
         span = span or []
         for p in pats:
@@ -2441,7 +2441,11 @@ class Interp:
                     self.grow_elem(s, ref(t))
                 outs.append(ref(s))
             elif how in ("sub", "subn"):
-                outs.append(top(subject.prov | {("m", p.key)}))
+                res_ = top(subject.prov | {("m", p.key)})
+                if repl is not None and any(isinstance(x, (Func, Partial, OpCall, Rec)) for x in repl.refs):
+                    # a callable replacement sees every match (sometimes used to collect matches)
+                    res_ = join(res_, replace(self.call_value(repl, [ref(m)], {}, fr, e, tag=("sub-callback", p.key)), consts=frozenset()))
+                outs.append(res_)
             elif how == "split":
                 s = self.seq(fr, e, "list", ("split", p.key))
                 self.grow_elem(s, top(subject.prov))
@@ -2510,7 +2514,7 @@ class Interp:
             flags = kwargs.get("flags") or (args[si + 1] if len(args) > si + 1 and how not in ("sub", "subn", "split") else None)
             pats = self.pattern_of(a0, flags, fr, e)
             subj = args[si] if len(args) > si else kwargs.get("string", BOT)
-            return self.regex_call(how, pats, subj, fr, e) if pats else self.unknown_value(name + " with a non-constant pattern", *args)
+            return self.regex_call(how, pats, subj, fr, e, None, args[1] if how in ("sub", "subn") and len(args) > 1 else None) if pats else self.unknown_value(name + " with a non-constant pattern", *args)
         if name == "re.escape":
             if a0.concrete:
                 return consts(re.escape(v) for v in a0.values())
@@ -2536,7 +2540,7 @@ class Interp:
             if how in ("search", "match", "fullmatch", "finditer", "findall", "split", "sub", "subn"):
                 subj = args[1] if how in ("sub", "subn") and len(args) > 1 else a0
                 span = list(args[1:3]) if how in ("search", "match", "fullmatch") else None
-                return self.regex_call(how, pats, subj, fr, e, span)
+                return self.regex_call(how, pats, subj, fr, e, span, a0 if how in ("sub", "subn") else None)
             return self.unknown_value(name, *args)
         if name.startswith("match."):
             how = name[6:]
